@@ -722,3 +722,12 @@ func CaseInsensitive(t Tier) []*Grammar {
 	}
 	return out
 }
+
+// ---------- exported helpers for other engines
+
+type LeafFn = func() *g.Node
+
+func Terms(n int, leaves []LeafFn) []LeafFn       { return terms(n, leaves, map[int][]func() *g.Node{}) }
+func Top(ts []LeafFn) []LeafFn                    { return top(ts) }
+func AssignOwn(name string, body *g.Node) *g.Prod { return assign(name, body, schemeOwn) }
+func CapMark(x *g.Node) *g.Node                   { return capMark(x) }
